@@ -5,6 +5,8 @@
    names and faces; one single-name perturbation is rejected with ValueError. *)
 From Coq Require Import String ZArith Bool Arith List.
 From SV Require Import Names Rep Complex Homology Filtration Gen World Small Sweeps NamesFacts RepInv Shapes ComposeProofs.
+From SV Require Import VInv ComposeOk.
+
 
 Theorem C16_union_upto3_partial : forall c1 c2, In c1 complexes3 -> In c2 complexes3 -> chk_compose c1 c2 = true.
 Proof. exact compose_upto3. Qed.
@@ -33,3 +35,14 @@ Theorem C16_accepts_only_compatible :
   c_simplexWithBasis a (basisOf c s) false = Ok (if containsSimplex a s then Some s else None).
 Proof. exact compose_accepts_only_compatible. Qed.
 Print Assumptions C16_accepts_only_compatible.
+
+(* THE OTHER DIRECTION, for complexes that meet the vertex-set reading: when every name the two share denotes
+   simplices on the same points (K1) and every point set they share carries the same name (K2), a.compose(c)
+   succeeds -- and is then the union (C16_result_is_the_union) *)
+Theorem C16_compatible_operands_are_composed :
+  forall a c, vinv a -> vinv c ->
+  (forall s, containsSimplex c s = true -> containsSimplex a s = true -> sameset (basisOf a s) (basisOf c s)) ->
+  (forall s t, containsSimplex c s = true -> containsSimplex a t = true -> sameset (basisOf a t) (basisOf c s) -> t = s) ->
+  forall hp uid, exists hp' d, compose hp a c None uid = (hp', d, Ok tt).
+Proof. exact compose_succeeds. Qed.
+Print Assumptions C16_compatible_operands_are_composed.
